@@ -131,7 +131,11 @@ def _malformed(kind, ndim, dims, L=1.0):
          ("scale", (tuple([0.0] + [2.0] * (ndim - 1)), None)) if ndim > 1 else ("scale", (0.0, None)),
          ("scale", (2, tuple([0.0] * (ndim + 1)))),
 
-         ("translate", (tuple([1.0] * (ndim + 1)),)), ("translate", ("a",)), ("translate", (tuple(["a"] * ndim),))]
+         ("translate", (tuple([1.0] * (ndim + 1)),)), ("translate", ("a",)), ("translate", (tuple(["a"] * ndim),)),
+         # complex numbers are numbers, but not coordinates / factors of a real-space region
+         ("translate", (tuple([1 + 2j] + [0.0] * (ndim - 1)),)), ("translate", (_ARR(tuple([1j] * ndim)),)),
+         ("scale", (2 + 1j, None)), ("scale", (tuple([1.0] * (ndim - 1) + [1j]), None)),
+         ("scale", (2, tuple([0.5j] * ndim)))]
     if ndim >= 2:
         m += [("rotate90", (dims[0], dims[0], 1, None)), ("rotate90", (dims[0], dims[1], 1.5, None)),
               ("rotate90", (dims[0], "nonaxis", 1, None)), ("rotate90", (dims[0], dims[1], 1, tuple([0.0] * (ndim + 1))))]
@@ -156,7 +160,7 @@ def _call(obj, kind, ev, form):
     inplace = form in ("in", "mesh-in")
     target = obj.mesh if (kind == "field" and op in ("translate", "scale")) else obj
     if op == "translate":
-        r = target.translate(args[0], inplace=inplace)
+        r = target.translate(np.array(args[0]) if isinstance(args[0], _ARR) else args[0], inplace=inplace)
     elif op == "scale":
         rp = np.array(args[1], dtype=float) if isinstance(args[1], _ARR) else args[1]
         r = target.scale(args[0], reference_point=rp, inplace=inplace)
